@@ -6,11 +6,12 @@ usage: tools/mutants.py OUT.jsonl [file ...]   (env MUT_SAMPLE=N to sample N mut
 import ast, json, os, random, shutil, subprocess, sys, tempfile
 
 HERE = os.path.dirname(os.path.dirname(os.path.abspath(__file__)))
-OWNERS = {
+OWNERS = {  # file -> checks that own its behaviour
+
     "monkeytype/typing.py": ["C04", "C05", "C06", "C07"], "monkeytype/tracing.py": ["C02", "C03", "C18"],
     "monkeytype/encoding.py": ["C08", "C09"], "monkeytype/db/sqlite.py": ["C09"], "monkeytype/db/base.py": ["C17", "C01"],
     "monkeytype/stubs.py": ["C11", "C12", "C13", "C14"], "monkeytype/cli.py": ["C10", "C15", "C16", "C01"],
-    "monkeytype/config.py": ["C17"], "monkeytype/type_checking_imports_transformer.py": ["C16", "C15"],
+    "monkeytype/config.py": ["C17", "C06", "C01"], "monkeytype/type_checking_imports_transformer.py": ["C16", "C15"],
     "monkeytype/util.py": ["C08", "C10"], "monkeytype/compat.py": ["C04", "C08", "C11"],
 }
 CMP = {ast.Eq: "!=", ast.NotEq: "==", ast.Lt: "<=", ast.LtE: "<", ast.Gt: ">=", ast.GtE: ">", ast.Is: "is not", ast.IsNot: "is", ast.In: "not in", ast.NotIn: "in"}
